@@ -36,7 +36,7 @@ func init() {
 		Batches: func(seed int64, tier core.Tier) []core.Batch {
 			var bs []core.Batch
 			for s := 0; s < tierPick(tier, 8, 32); s++ {
-				bs = append(bs, core.Batch{Name: fmt.Sprintf("scripts-%d", s), TimeoutS: 600, Params: core.Params(c08Params{Kind: "scripts", Shard: s, N: tierPick(tier, 600, 15000)})})
+				bs = append(bs, core.Batch{Name: fmt.Sprintf("scripts-%d", s), TimeoutS: 600, Params: core.Params(c08Params{Kind: "scripts", Shard: s, N: tierPick(tier, 2000, 15000)})})
 			}
 			for s := 0; s < tierPick(tier, 2, 6); s++ {
 				bs = append(bs, core.Batch{Name: fmt.Sprintf("concurrent-%d", s), TimeoutS: 600, Params: core.Params(c08Params{Kind: "concurrent", Shard: s, N: tierPick(tier, 3000, 15000)})})
